@@ -85,7 +85,17 @@ def strategy(tier):
         c["method"] = draw(st.sampled_from(METHODS))
         c["full_output"] = draw(st.booleans())
         c["include_origin"] = draw(st.booleans())
-        c["grid_type"] = draw(st.sampled_from(["list", "tuple", "array", "number"]))
+        c["grid_type"] = draw(st.sampled_from(["list", "tuple", "array", "number", "int_array", "int_list", "int_tuple"]))
+        if c["grid_type"].startswith("int"):
+            # whole-number output times (np.arange / day numbers) with a possibly fractional initial time
+            tmax = 6.0 if src == "generated" else CATALOGUE[c["name"]][2]
+            c["setup"] = draw(S.integer_grid(c["setup"], max_n=max(1, int(tmax) - 1)))
+        c["x0_type"] = draw(st.sampled_from(["list", "list", "array", "int_list", "int_array", "tuple"]))
+        if c["x0_type"].startswith("int"):
+            if all(v >= 1.5 for v in c["setup"]["x0"]):
+                c["setup"] = dict(c["setup"], x0=[float(round(v)) for v in c["setup"]["x0"]])
+            else:
+                c["x0_type"] = "list"
         return c
     return case()
 
@@ -127,10 +137,18 @@ def oracle(case, rec):
     ref, amp = refsolve.reference_solution(f, x0, t0, times, tol)
     if amp > 20:
         raise Inconclusive("ill-conditioned")
-    garg = {"list": list(times), "tuple": tuple(times), "array": times, "number": float(times[-1])}[case["grid_type"]]
-    model.initial_values = (x0, t0)
+    gt = case["grid_type"]
+    if gt.startswith("int") and not np.all(times == np.rint(times)):
+        raise Inconclusive("integer grid form on non-integer times")
+    itimes = np.rint(times).astype(int)
+    garg = {"list": list(times), "tuple": tuple(times), "array": times, "number": float(times[-1]), "int_array": itimes,
+            "int_list": [int(v) for v in itimes], "int_tuple": tuple(int(v) for v in itimes)}[gt]
+    xt = case.get("x0_type", "list")
+    x0_arg = {"list": list(x0), "array": np.array(x0, float), "tuple": tuple(x0), "int_list": [int(v) for v in x0],
+              "int_array": np.array([int(v) for v in x0])}[xt] if xt in ("list", "array", "tuple") or all(v == int(v) for v in x0) else list(x0)
+    model.initial_values = (x0_arg, t0)
     label_m = "odeint" if odeint_path else str(method)
-    rec.label("entry:" + entry, "method:" + label_m, "grid:" + case["grid_type"], "source:" + case["source"],
+    rec.label("entry:" + entry, "method:" + label_m, "grid:" + case["grid_type"], "source:" + case["source"], "x0:" + xt,
               "model:" + (case.get("name") or case["model"]["family"]))
     info = None
     origin = True
@@ -155,7 +173,8 @@ def oracle(case, rec):
     else:
         key = "C02/integrateFuncJac/%s" % method
         origin = case["include_origin"]
-        out = call(key, case, ode_utils.integrateFuncJac, model.ode_T, model.jacobian_T, np.array(x0, float), t0, garg,
+        out = call(key, case, ode_utils.integrateFuncJac, model.ode_T, model.jacobian_T,
+                   x0_arg if isinstance(x0_arg, np.ndarray) else np.array(x0_arg), t0, garg,
                    includeOrigin=origin, full_output=case["full_output"], method=method)
         if case["full_output"]:
             try:
